@@ -47,9 +47,19 @@ pub unsafe extern "C" fn waitable_set_wait(s: u32, out: *mut [u32; 2]) -> u32 {
                 return e0;
             }
             Some(None) => {
-                // violated execution inside a synchronous wait: the caller
-                // cannot be resumed meaningfully
-                crate::driver::fatal_in_wait("violated");
+                // violated execution inside a synchronous wait: answer "no
+                // event" so that the body gets polled again and can wind down
+                // (choice-driven bodies finish once their budget is used up);
+                // give up if it never does
+                let n = host::with(|h| {
+                    h.lenient_waits += 1;
+                    h.lenient_waits
+                });
+                if n > 400 {
+                    crate::driver::fatal_in_wait("violated");
+                }
+                unsafe { *out = [0, 0] };
+                return 0;
             }
             None => {}
         }
